@@ -47,6 +47,8 @@ def main():
         out["checks"] = {}
         for p in checks:
             env2 = dict(os.environ, VERIF_REPO_SRC=os.path.join(tmp, "src"), VERIF_NO_EVIDENCE="1")
+            if os.path.exists("/tmp/reeval/SHORT"):  # regression under time pressure: a shorter batch first; misses are repeated at full budget
+                env2["VERIF_BUDGET_S"] = "16"
             t0 = time.time()
             r = sh([os.path.join(VERIF, "check"), p, "--tier", "quick"], env=env2, cwd=VERIF)
             line = next((ln.strip() for ln in r.stdout.splitlines() if ln.startswith("  class=")), "")
